@@ -194,6 +194,69 @@ func (t *Timer) Reset(d time.Duration) bool {
 	return was
 }
 
+// Ticker mirrors *time.Ticker on the virtual clock: a tick is dropped when the previous one has not
+// been received (capacity-1 channel), the period is measured tick to tick.
+type Ticker struct {
+	C      *Chan[time.Time]
+	t      *timer
+	period int64
+	real   *time.Ticker
+}
+
+func NewTicker(d time.Duration) *Ticker {
+	if d <= 0 {
+		panic("non-positive interval for NewTicker")
+	}
+	if S == nil {
+		rt := time.NewTicker(d)
+		return &Ticker{C: &Chan[time.Time]{ro: rt.C}, real: rt}
+	}
+	c, t := newTimerChan(d)
+	tk := &Ticker{C: c, t: t, period: int64(d)}
+	tk.arm(t)
+	return tk
+}
+
+func (tk *Ticker) arm(t *timer) {
+	deliver := t.fn
+	s := S
+	t.fn = func() {
+		deliver()
+		nt := &timer{at: t.at + tk.period, ch: t.ch}
+		nt.fn = deliver
+		tk.t = nt
+		tk.arm(nt)
+		s.rearm = append(s.rearm, nt)
+	}
+}
+
+func (tk *Ticker) Stop() {
+	if tk.real != nil {
+		tk.real.Stop()
+		return
+	}
+	tk.t.dead = true
+}
+
+func (tk *Ticker) Reset(d time.Duration) {
+	if tk.real != nil {
+		tk.real.Reset(d)
+		return
+	}
+	tk.t.dead = true
+	tk.period = int64(d)
+	nt := &timer{at: S.now + int64(d), ch: tk.t.ch}
+	c := tk.t.ch
+	nt.fn = func() {
+		if len(c.buf) < c.capacity {
+			c.buf = append(c.buf, time.Unix(0, S.now))
+		}
+	}
+	tk.t = nt
+	tk.arm(nt)
+	S.timers = append(S.timers, nt)
+}
+
 func AfterFunc(d time.Duration, f func()) *Timer {
 	if S == nil {
 		return &Timer{real: time.AfterFunc(d, f)}
